@@ -8,7 +8,7 @@ namespace SL.Drv.C16
 open SL.Drv
 
 /-! JSON glue for C16.  Every answer is computed by the definitions the theorems of
-`Props/C16` are about (`decodeScore`, `hexDecode`, `legacy…`, `plan`, `segmentVerdict`,
+`Props/C16` are about (`decodeScore`, `hexDecode`, `repaired…`, `legacy…`, `plan`, `segmentVerdict`,
 `compile`, `eval`, `wf`, `depth`, `resolve`). -/
 
 def strArr (j : Json) : Except String (List String) := do
@@ -40,6 +40,8 @@ def cursorOp (req : Json) : Except String Json := do
     ("fast_noplus", scoreJson (decodeCursorFast false bs gen)),
     ("decode_plus", scoreJson (decodeScore true bs)),
     ("decode_noplus", scoreJson (decodeScore false bs)),
+    ("repaired_hex", bytesOutJson (repairedHexDecode true bs)),
+    ("repaired_score", scoreJson (repairedScore true bs)),
     ("hex_plus", bytesOutJson (hexDecode true bs)),
     ("hex_noplus", bytesOutJson (hexDecode false bs)),
     ("legacy_fast", (legacyScore true bs).cls),
@@ -116,13 +118,17 @@ def planOp (req : Json) : Except String Json := do
     | none => []
   let p := plan dflt q
   let qts := qualified keysOf p.groups
-  let verdict := match segmentVerdict keysOf p with
+  let vname : Verdict → String := fun v => match v with
     | .fine => "fine" | .inconsistentLeaf => "inconsistent-leaf" | .leafOutOfRange => "leaf-out-of-range"
+  let verdict := vname (segmentVerdict keysOf p)
+  let scored := termWeights [] qts
   -- every (field, term, exp) slot the plan asks keys for, so the harness can check its table
   let asked := p.groups.flatMap fun g => g.fields.map fun s =>
     Json.arr #[s.field, g.term, expName g.exp]
   return Json.mkObj [
-    ("verdict", verdict),
+    ("verdict", Json.str verdict),
+    ("legacy_verdict", Json.str (vname (legacySegmentVerdict keysOf p))),
+    ("scored_terms", scored.length),
     ("leaf_count", p.leafCount),
     ("has_scorer", p.scorer.isSome),
     ("groups", p.groups.length),
